@@ -1,11 +1,190 @@
 /-
-Props/C05.lean — property theorems for C05.
+Props/C05.lean — property theorems for C05 (DeepEqual is structural equality: reflexive, symmetric, sees
+every change).
+
+`deq_correct`: for the repaired emitter model, every tree whose inspector compiles (`EmitOK`) and whose
+fields are named the way both parsers name them (`PathNamesOK`), every pair of well-typed values and every
+option set, the answer of DeepEqual is one the structural reading `eqS` accepts: `true` where the values
+are structurally identical, `false` where they differ in a scalar, string, bytes, length, key set or
+nil-ness, either answer only for floats within the tolerance and for pointer-keyed maps of independent
+objects. `deq_structural` is its reading for nil options (C05 proper); with options it is C11
+(Props/C11.lean). `deq_symmetric` / `deq_reflexive`: same answer in both argument orders, and `true` for a
+value against itself, for values whose maps have pairwise distinct keys (`MapKeysOK`).
+The model of the current tree differs on the classes `deq-ptr-leaf-nil` and `deq-nil-before-mustcheck`
+(`repo_not_correct`, `repo_not_correct_nil_before_mustcheck`).
 -/
-import InspectorModel.Gen.DEQ
-import InspectorModel.Spec.StructEq
+import InspectorModel.Proofs.DEQSym
 namespace Inspector.C05
 
 /-- The decision function of options.go with nil options: every field is checked. -/
 theorem mustCheck_nil (path : String) : deqMustCheck path none = true := rfl
+
+/-- C05 (and C11: `opts` is arbitrary) for the repaired emitter. The pairing is the one `opDeq`
+(Driver/GenOps.lean) applies when both arguments are recognised and non-nil. -/
+theorem deq_correct (n : Node) (a b : Val) (opts : Option DeqOpts) (ident : Bool)
+    (hroot : RootOK n = true) (hok : EmitOK n = true) (hnames : PathNamesOK n = true)
+    (hwa : WT n a = true) (hwb : WT n b = true) :
+    deqAccepts (eqS { opts := opts, ident := ident } n "" a b)
+      (deqM { cfg := GenCfg.fixed, opts := opts, ident := ident } n .ptr .ptr a b) = true := by
+  have hl : n.isLeaf = false := by
+    simp only [RootOK, Bool.and_eq_true, Bool.not_eq_true'] at hroot
+    exact hroot.2
+  exact deqM_correct n a b opts ident (isBytes_le_isLeaf n hl) hok hnames hwa hwb
+
+/-- The same for any root node that is not `[]byte` itself (pointer-typed or scalar roots included). -/
+theorem deq_correct_anyroot (n : Node) (a b : Val) (opts : Option DeqOpts) (ident : Bool)
+    (hroot : n.isBytes = false) (hok : EmitOK n = true) (hnames : PathNamesOK n = true)
+    (hwa : WT n a = true) (hwb : WT n b = true) :
+    deqAccepts (eqS { opts := opts, ident := ident } n "" a b)
+      (deqM { cfg := GenCfg.fixed, opts := opts, ident := ident } n .ptr .ptr a b) = true :=
+  deqM_correct n a b opts ident hroot hok hnames hwa hwb
+
+/-- C05 proper: plain `DeepEqual` (nil options). -/
+theorem deq_structural (n : Node) (a b : Val) (ident : Bool)
+    (hroot : RootOK n = true) (hok : EmitOK n = true) (hnames : PathNamesOK n = true)
+    (hwa : WT n a = true) (hwb : WT n b = true) :
+    deqAccepts (eqS { opts := none, ident := ident } n "" a b)
+      (deqM { cfg := GenCfg.fixed, opts := none, ident := ident } n .ptr .ptr a b) = true :=
+  deq_correct n a b none ident hroot hok hnames hwa hwb
+
+/-- Same answer in both argument orders — for every pair, floats closer than the tolerance included. -/
+theorem deq_symmetric (n : Node) (a b : Val) (opts : Option DeqOpts) (ident : Bool)
+    (hwa : WT n a = true) (hwb : WT n b = true) (hka : MapKeysOK a = true) (hkb : MapKeysOK b = true) :
+    deqM { cfg := GenCfg.fixed, opts := opts, ident := ident } n .ptr .ptr a b =
+      deqM { cfg := GenCfg.fixed, opts := opts, ident := ident } n .ptr .ptr b a :=
+  deqM_symmetric n a b opts ident hwa hwb hka hkb
+
+/-- A value compared with itself (the very same object) is equal, under every option set. -/
+theorem deq_reflexive (n : Node) (a : Val) (opts : Option DeqOpts)
+    (hwa : WT n a = true) (hka : MapKeysOK a = true) :
+    deqM { cfg := GenCfg.fixed, opts := opts, ident := true } n .ptr .ptr a a = .t :=
+  deqM_reflexive n a opts hwa hka
+
+/-- All three conjuncts of the check `opDeq` applies, at once. -/
+theorem deq_check (n : Node) (a b : Val) (opts : Option DeqOpts) (ident : Bool)
+    (hroot : RootOK n = true) (hok : EmitOK n = true) (hnames : PathNamesOK n = true)
+    (hwa : WT n a = true) (hwb : WT n b = true) (hka : MapKeysOK a = true) (hkb : MapKeysOK b = true) :
+    let env : DeqEnv := { cfg := GenCfg.fixed, opts := opts, ident := ident }
+    let t := eqS { opts := opts, ident := ident } n "" a b
+    (deqAccepts t (deqM env n .ptr .ptr a b) && deqAccepts t (deqM env n .ptr .ptr b a) &&
+      deqM env n .ptr .ptr a b == deqM env n .ptr .ptr b a) = true := by
+  intro env t
+  have h1 := deq_correct n a b opts ident hroot hok hnames hwa hwb
+  have h2 := deq_symmetric n a b opts ident hwa hwb hka hkb
+  show (deqAccepts t (deqM env n .ptr .ptr a b) && deqAccepts t (deqM env n .ptr .ptr b a) &&
+      deqM env n .ptr .ptr a b == deqM env n .ptr .ptr b a) = true
+  rw [← h2]
+  simp [h1, t, env]
+
+section NonVacuity
+/-- `struct { A int; F float64; P *struct{ B string }; N *int; M map[string]int; S []*Inner; Y []byte }`. -/
+def inner : Info → Node := fun i => .struct i [.basic { typn := "string", typu := "string", name := "B" }]
+def exNode : Node :=
+  .struct { typn := "T" } [
+    .basic { typn := "int", typu := "int", name := "A" },
+    .basic { typn := "float64", typu := "float64", name := "F" },
+    inner { typn := "Inner", name := "P", ptr := true },
+    .basic { typn := "int", typu := "int", name := "N", ptr := true },
+    .map { typn := "map[string]int", name := "M" } (.basic { typn := "string", typu := "string" })
+      (.basic { typn := "int", typu := "int" }),
+    .slice { typn := "[]*Inner", name := "S" } (inner { typn := "Inner", ptr := true }),
+    .slice { typn := "[]byte", name := "Y" } (.basic { typn := "byte", typu := "byte" })]
+def mk (a : Int) (f : Int) (p n : Val) (ks vs : List Val) (s : List Val) (y : Bytes) : Val :=
+  .struct [.int a, .float f, p, n, .map false ks vs, .slice false s s.length, .bytes false y y.length]
+def sB (s : String) : Val := .ptr (.struct [.str (strBytes s)])
+def exA : Val := mk 5 1000000 (sB "x") (.ptr (.int 7)) [.str (strBytes "k"), .str (strBytes "l")] [.int 1, .int 2] [sB "e", .nilptr] [1, 2]
+/-- Same as `exA` with the map listed in the other order and the float moved by less than the tolerance. -/
+def exA' : Val := mk 5 1000100 (sB "x") (.ptr (.int 7)) [.str (strBytes "l"), .str (strBytes "k")] [.int 2, .int 1] [sB "e", .nilptr] [1, 2]
+/-- `exA` with the pointer-to-scalar field cleared. -/
+def exB : Val := mk 5 1000000 (sB "x") .nilptr [.str (strBytes "k"), .str (strBytes "l")] [.int 1, .int 2] [sB "e", .nilptr] [1, 2]
+/-- `exA` with a string changed behind the slice of pointers. -/
+def exC : Val := mk 5 1000000 (sB "x") (.ptr (.int 7)) [.str (strBytes "k"), .str (strBytes "l")] [.int 1, .int 2] [sB "f", .nilptr] [1, 2]
+
+example : RootOK exNode = true ∧ EmitOK exNode = true ∧ PathNamesOK exNode = true ∧ NodeWF exNode = true := by decide
+example : WT exNode exA = true ∧ WT exNode exA' = true ∧ WT exNode exB = true ∧ WT exNode exC = true := by decide
+example : MapKeysOK exA = true ∧ MapKeysOK exA' = true ∧ MapKeysOK exB = true ∧ MapKeysOK exC = true := by decide
+example : eqS {} exNode "" exA exA = .must ∧ eqS {} exNode "" exA exA' = .either ∧
+    eqS {} exNode "" exA exB = .mustNot ∧ eqS {} exNode "" exA exC = .mustNot := by decide
+example : deqM { cfg := GenCfg.fixed } exNode .ptr .ptr exA exA' = .t ∧
+    deqM { cfg := GenCfg.fixed } exNode .ptr .ptr exA exB = .f ∧
+    deqM { cfg := GenCfg.fixed } exNode .ptr .ptr exB exA = .f ∧
+    deqM { cfg := GenCfg.fixed } exNode .ptr .ptr exA exC = .f := by decide
+
+/-- Known finding `deq-ptr-leaf-nil`: for a pointer-to-scalar struct field the emitted nil test looks at the
+parent's variables, so a cleared field is dereferenced: the current tree panics where `false` is due. -/
+theorem repo_not_correct :
+    deqAccepts (eqS {} exNode "" exA exB) (deqM { cfg := GenCfg.repo } exNode .ptr .ptr exA exB) = false := by
+  decide
+example : deqM { cfg := GenCfg.repo } exNode .ptr .ptr exA exB = .panic := by decide
+
+/-- The same class where `true` is due: both fields nil. -/
+theorem repo_not_correct_both_nil :
+    deqAccepts (eqS {} exNode "" exB exB) (deqM { cfg := GenCfg.repo } exNode .ptr .ptr exB exB) = false := by
+  decide
+
+/-- Known finding `deq-nil-before-mustcheck`: the nil-ness test of a pointer-typed struct field is emitted
+outside the `DEQMustCheck` wrapper, so an excluded field still decides the answer through its nil-ness. -/
+def exclP : Option DeqOpts := some { exclude := ["P"] }
+def exD : Val := mk 5 1000000 .nilptr (.ptr (.int 7)) [.str (strBytes "k"), .str (strBytes "l")] [.int 1, .int 2] [sB "e", .nilptr] [1, 2]
+theorem repo_not_correct_nil_before_mustcheck :
+    deqAccepts (eqS { opts := exclP } exNode "" exA exD)
+      (deqM { cfg := GenCfg.repo, opts := exclP } exNode .ptr .ptr exA exD) = false := by
+  decide
+example : eqS { opts := exclP } exNode "" exA exD = .must ∧
+    deqM { cfg := GenCfg.fixed, opts := exclP } exNode .ptr .ptr exA exD = .t ∧
+    deqM { cfg := GenCfg.repo, opts := exclP } exNode .ptr .ptr exA exD = .f := by decide
+end NonVacuity
+
+section Necessity
+/-! Each hypothesis of `deq_correct` / `deq_symmetric` / `deq_reflexive` that is not plain well-typedness is
+needed: without it the repaired model is rejected (or asymmetric). -/
+def onlyX : Option DeqOpts := some { filter := ["X"] }
+def bytesNode (name : String := "") : Node := .slice { typn := "[]byte", name := name } (.basic { typn := "byte", typu := "byte" })
+
+/-- `EmitOK` (no `[]byte` as slice element / map value — such inspectors do not compile): in a root
+`[][]byte` the element comparison asks `DEQMustCheck("")`, which a non-empty filter denies. -/
+theorem emitOK_needed :
+    let n : Node := .slice { typn := "L" } (bytesNode)
+    let a : Val := .slice false [.bytes false [1] 1] 1
+    let b : Val := .slice false [.bytes false [2] 1] 1
+    RootOK n = true ∧ PathNamesOK n = true ∧ WT n a = true ∧ WT n b = true ∧ EmitOK n = false ∧
+    deqAccepts (eqS { opts := onlyX } n "" a b) (deqM { cfg := GenCfg.fixed, opts := onlyX } n .ptr .ptr a b) = false := by
+  decide
+
+/-- Root not `[]byte` itself: same reason. -/
+theorem root_not_bytes_needed :
+    let n : Node := bytesNode
+    let a : Val := .bytes false [1] 1
+    let b : Val := .bytes false [2] 1
+    PathNamesOK n = true ∧ EmitOK n = true ∧ WT n a = true ∧ WT n b = true ∧
+    deqAccepts (eqS { opts := onlyX } n "" a b) (deqM { cfg := GenCfg.fixed, opts := onlyX } n .ptr .ptr a b) = false := by
+  decide
+
+/-- `PathNamesOK`: a map value carrying a name shifts the dotted path of everything below it. -/
+theorem pathNames_needed :
+    let n : Node := .map { typn := "M" } (.basic { typn := "string", typu := "string" })
+      (.struct { typn := "S", name := "V" } [.basic { typn := "int", typu := "int", name := "A" }])
+    let a : Val := .map false [.str []] [.struct [.int 1]]
+    let b : Val := .map false [.str []] [.struct [.int 2]]
+    let o : Option DeqOpts := some { filter := ["A"] }
+    RootOK n = true ∧ EmitOK n = true ∧ PathNamesOK n = false ∧ WT n a = true ∧ WT n b = true ∧
+    deqAccepts (eqS { opts := o } n "" a b) (deqM { cfg := GenCfg.fixed, opts := o } n .ptr .ptr a b) = false := by
+  decide
+
+def miNode : Node := .map { typn := "M" } (.basic { typn := "string", typu := "string" }) (.basic { typn := "int", typu := "int" })
+/-- `MapKeysOK`: an association list with a repeated key (no Go map is one) is not equal to itself … -/
+theorem distinctKeys_needed_refl :
+    let a : Val := .map false [.str [], .str []] [.int 1, .int 2]
+    WT miNode a = true ∧ MapKeysOK a = false ∧
+    deqM { cfg := GenCfg.fixed, ident := true } miNode .ptr .ptr a a = .f := by
+  decide
+/-- … and is compared asymmetrically. -/
+theorem distinctKeys_needed_sym :
+    let a : Val := .map false [.str [], .str []] [.int 1, .int 1]
+    let b : Val := .map false [.str [], .str [1]] [.int 1, .int 1]
+    WT miNode a = true ∧ WT miNode b = true ∧ MapKeysOK a = false ∧ MapKeysOK b = true ∧
+    deqM { cfg := GenCfg.fixed } miNode .ptr .ptr a b = .t ∧ deqM { cfg := GenCfg.fixed } miNode .ptr .ptr b a = .f := by
+  decide
+end Necessity
 
 end Inspector.C05
